@@ -244,6 +244,15 @@ def _simplify(m, o):
     return {}, (lambda: x.simplify()), ('none' if ip else 'obj'), {'inplace': ip, 'obs': obs}
 
 
+@op('twin_eq')
+def _twin_eq(m, o):
+    """== and != between two AnsiStrings and between their two AnsiStr twins: the four answers are logged."""
+    s1, s2, a1, a2 = (m.regs[o[k]] for k in ('s1', 's2', 'a1', 'a2'))
+    return {'s1': o['s1'], 's2': o['s2'], 'a1': o['a1'], 'a2': o['a2']}, (lambda: None), 'scalar', \
+        {'obs': lambda v: {'eq_s': b(s1 == s2), 'eq_a': b(a1 == a2), 'ne_s': b(s1 != s2), 'ne_a': b(a1 != a2),
+                           'ne_plain': b(a1 != a1.base_str), 'eq_plain': b(a1 == a1.base_str)}}
+
+
 @op('eq')
 def _eq(m, o):
     x, y = m.regs[o['r']], m.regs[o['other']]
@@ -562,6 +571,10 @@ def _pad(m, o):
         if S:
             args = [width] + ([] if fill is None else [fill])
             call = lambda: getattr(x, meth)(*args, inplace=ip, extend_formatting=ext)
+        elif 'extend' in o:
+            # the shared method takes extend_formatting on AnsiStr as on AnsiString (C13: same operation, same arguments)
+            args = [width] + ([] if fill is None else [fill])
+            call = lambda: getattr(x, meth)(*args, extend_formatting=ext)
         else:
             ext = True
             call = (lambda: getattr(x, meth)(width)) if fill is None else (lambda: getattr(x, meth)(width, fill))
